@@ -3,7 +3,7 @@ over exact rationals.
 
 T1  stock <- flow <- constant                       (constants: constant;  initial: s0)
 T2  stockA -move-> stockB, gain = k*lookup(time,tbl), move = gain - drain*lookup(time,tbl2)   (biflow, converter, two named tables)
-T3  tank initialised from constant `init`, outflow leak = max(0, rate - threshold)
+T3  tank initialised from constant `init`, outflow leak = max(0, rate - threshold), half = tank/2 (converter on a stock)
 
 All default parameters are dyadic (k/8) so that the real code and the rational reference
 perform exactly representable arithmetic whenever dt is dyadic as well.
@@ -21,7 +21,7 @@ DEFAULTS = {
 ELEMENTS = {
     "T1": ["stock", "flow", "constant"],
     "T2": ["stockA", "stockB", "move", "gain", "drain", "k"],
-    "T3": ["tank", "leak", "init", "rate", "threshold"],
+    "T3": ["tank", "leak", "half", "init", "rate", "threshold"],
 }
 
 ELEMENTS["T4"] = ["stock", "flow", "constant", "factor"]      # XMILE-sourced, see models/xmile_t4.py
@@ -90,9 +90,11 @@ def define(m, template, constants=None, points=None, initial=None):
         init.equation = float(c["init"])
         rate.equation = float(c["rate"])
         thr.equation = float(c["threshold"])
+        half = m.converter("half")
         tank.initial_value = init
         leak.equation = rate - thr
         tank.equation = -leak
+        half.equation = tank * 0.5          # a converter that depends on a stock
     else:
         raise ValueError(template)
     return m
@@ -180,6 +182,7 @@ def reference(template, start, dt, nsteps, params_at, initial=None):
                 row["tank"] = c["init"]
             else:
                 row["tank"] = prev["tank"] - h * prev["leak"]
+            row["half"] = row["tank"] / 2
         out.append(row)
         prev = row
     return out
